@@ -64,11 +64,18 @@ type Finding struct {
 }
 
 var (
-	verifDir = "/verif"
-	repoDir  = "/repo"
+	verifDir    = "/verif"
+	repoDir     = "/repo"
+	evidenceDir = "/verif/evidence"
 )
 
 func main() {
+	if v := os.Getenv("VERIF_REPO"); v != "" {
+		repoDir = v // scratch worktree (used only when testing the checks against seeded changes)
+	}
+	if v := os.Getenv("VERIF_EVIDENCE_DIR"); v != "" {
+		evidenceDir = v
+	}
 	if len(os.Args) < 2 {
 		fmt.Fprintln(os.Stderr, "usage: gosmt check|replay ...")
 		os.Exit(2)
@@ -219,6 +226,29 @@ func cmdCheck(args []string) int {
 		}
 		patterns = append(patterns, modPath+"/zz_verifrt")
 	}
+	// function stubs named for native replay are the engine's redirects, too
+	if cfg.Redirects == nil {
+		cfg.Redirects = map[string]string{}
+	}
+	for _, u := range cfg.Units {
+		for _, rw := range u.Rewrites {
+			for fn, stub := range rw.Funcs {
+				pkgPath := modPath + "/" + rw.Dir
+				name := pkgPath + "." + fn
+				if strings.HasPrefix(fn, "(") {
+					// (*T).m or (T).m
+					close := strings.Index(fn, ")")
+					recv := fn[1:close]
+					star := ""
+					if strings.HasPrefix(recv, "*") {
+						star, recv = "*", recv[1:]
+					}
+					name = "(" + star + pkgPath + "." + recv + ")" + fn[close+1:]
+				}
+				cfg.Redirects[name] = pkgPath + "." + stub
+			}
+		}
+	}
 	prog, pkgs := loadProgram(patterns, overlay)
 
 	var results []*EntryResult
@@ -242,7 +272,7 @@ func cmdCheck(args []string) int {
 				Workers: *workers, Unwind: pick(cfg.Unwind, *tier, 8), MaxSteps: 3000000,
 				MaxPaths: pick(cfg.MaxPaths, *tier, 20000), TimeoutMs: pick(cfg.TimeoutMs, *tier, 30000),
 				Seed: seed, Tier: *tier, Trace: *trace, Known: known, Redirects: cfg.Redirects,
-				Bounds: cfg.Bounds[*tier]}
+				Bounds: cfg.Bounds[*tier], MaxUnknown: 6}
 			if cfg.MaxSteps > 0 {
 				ex.MaxSteps = cfg.MaxSteps
 			}
